@@ -459,8 +459,33 @@ pub open spec fn flat_n(ps: Seq<Src>, n: nat) -> Seq<Query>
     if n == 0 || n > ps.len() { Seq::empty() } else { flat_n(ps, (n - 1) as nat) + leaves(ps[n - 1]) }
 }
 pub open spec fn flat(ps: Seq<Src>) -> Seq<Query> { flat_n(ps, ps.len()) }
+// ---- f32 constants (rule R12c covers f64 only; same device: getter + distinct uninterpreted spec constant) ----
+pub uninterp spec fn spec_f32_neg_infinity() -> f32;
+pub uninterp spec fn spec_f32_infinity() -> f32;
+pub uninterp spec fn spec_f32_max() -> f32;
+pub uninterp spec fn spec_f32_min() -> f32;
+pub uninterp spec fn spec_f32_nan() -> f32;
+#[verifier::external_body] pub fn fconst_f32_neg_infinity() -> (r: f32) ensures r == spec_f32_neg_infinity() { f32::NEG_INFINITY }
+// what an edit might write instead: unrelated constants (judged, not rejected)
+#[verifier::external_body] pub fn fconst_f32_infinity() -> (r: f32) ensures r == spec_f32_infinity() { f32::INFINITY }
+#[verifier::external_body] pub fn fconst_f32_max() -> (r: f32) ensures r == spec_f32_max() { f32::MAX }
+#[verifier::external_body] pub fn fconst_f32_min() -> (r: f32) ensures r == spec_f32_min() { f32::MIN }
+#[verifier::external_body] pub fn fconst_f32_nan() -> (r: f32) ensures r == spec_f32_nan() { f32::NAN }
+/// the strict `v.value > threshold` test of the `.filter(..)` closure of `MergingValues::new` (unit mv_adjust:
+/// `kept_iff_strictly_above_threshold`, same uninterpreted predicate)
+pub uninterp spec fn fgt32(a: f32, b: f32) -> bool;
+/// x is a value the k-way merge can emit (a per-base sum of the inputs' values)
+pub uninterp spec fn merge_value(x: f32) -> bool;
+/// a threshold that drops nothing the merge emits
+pub open spec fn keeps_everything(threshold: f32) -> bool { forall|x: f32| #[trigger] merge_value(x) ==> fgt32(x, threshold) }
+/// THE float assumption of this unit, on the comparison shim: every value the k-way merge emits compares
+/// strictly greater than -infinity, i.e. the merge never emits -infinity or NaN (true for finite inputs whose
+/// per-base sums stay finite; an input that stores -inf/NaN, or sums that overflow f32, are outside it)
+#[verifier::external_body]
+pub proof fn axiom_merge_values_exceed_neg_infinity()
+    ensures forall|x: f32| #[trigger] merge_value(x) ==> fgt32(x, spec_f32_neg_infinity()),
+{}
 /// a partial merge must be a plain per-base sum: no clip, no adjustment, a threshold that drops nothing
-pub uninterp spec fn keeps_everything(threshold: f32) -> bool;
 pub open spec fn plain(s: Src) -> bool
     decreases s
 {
@@ -596,8 +621,8 @@ fn per_chrom(chrom: Str, size: u32, bws: Vec<(Info, Path)>, max_bw_fds: usize, t
         r matches Ok(t) ==> (bws@.len() <= max_bw_fds ==> t.2.iter.desc().parts == file_srcs(queries(bws@, chrom@, 0, size))),
         
         r matches Ok(t) ==> t.2.iter.rest() == mv_out(t.2.iter.desc()),
-        //FINDING [[FL: chunked/partial_merges_are_plain_sums]]
-        //FINDING r matches Ok(t) ==> all_plain(t.2.iter.desc().parts),
+        
+        r matches Ok(t) ==> all_plain(t.2.iter.desc().parts),
 {
     let ghost qs = queries(bws@, chrom@, 0, size);
     proof { lemma_flat_files(qs); }
@@ -614,8 +639,8 @@ fn per_chrom(chrom: Str, size: u32, bws: Vec<(Info, Path)>, max_bw_fds: usize, t
                     
                     flat(srcs(merges@)) == qs,
                     max_bw_fds >= 2,
-                    //FINDING [[FL: chunked/loop/partial_merges_are_plain_sums]]
-                    //FINDING all_plain(srcs(merges@)),
+                    
+                    all_plain(srcs(merges@)),
                 decreases
                     
                     merges@.len(),
@@ -636,8 +661,8 @@ fn per_chrom(chrom: Str, size: u32, bws: Vec<(Info, Path)>, max_bw_fds: usize, t
                             vals.rest().len() <= len,
                             
                             2 * merges@.len() + vals.rest().len() <= len || (vals.rest().len() == 0 && 2 * merges@.len() <= len + 1),
-                            //FINDING [[FL: chunked/regroup/partial_merges_are_plain_sums]]
-                            //FINDING all_plain(srcs(merges@)), all_plain(vals.rest()),
+                            
+                            all_plain(srcs(merges@)), all_plain(vals.rest()),
                         decreases
                             
                             vals.rest().len(),
@@ -654,7 +679,7 @@ fn per_chrom(chrom: Str, size: u32, bws: Vec<(Info, Path)>, max_bw_fds: usize, t
                         }
                         // Partial merges are plain sums: threshold, adjust and clip apply once, to the final sum
                         let mut mergingvalues =
-                            MergingValues::new(chunk, f32::NEG_INFINITY, None, None);
+                            MergingValues::new(chunk, fconst_f32_neg_infinity(), None, None);
                         let (mut sender, receiver) = unbounded::<Value>();
 
                         let ghost d0 = mergingvalues.iter.desc();
@@ -712,11 +737,12 @@ fn per_chrom(chrom: Str, size: u32, bws: Vec<(Info, Path)>, max_bw_fds: usize, t
                         proof {
                             let d = d0;
                             assert(d.parts == srcs(chunk@));
+                            axiom_merge_values_exceed_neg_infinity();
                             assert(srcs(merges@) =~= done.push(Src::Replay(d)));
                             lemma_flat_push(done, Src::Replay(d));
                             lemma_leaves_replay(d);
-                            //FINDING assert forall|i: int| 0 <= i < d.parts.len() implies plain(#[trigger] d.parts[i]) by { assert(d.parts[i] == pending[i]); }
-                            //FINDING assert forall|i: int| 0 <= i < vals.rest().len() implies plain(#[trigger] vals.rest()[i]) by { assert(vals.rest()[i] == pending[i + chunk@.len()]); }
+                            assert forall|i: int| 0 <= i < d.parts.len() implies plain(#[trigger] d.parts[i]) by { assert(d.parts[i] == pending[i]); }
+                            assert forall|i: int| 0 <= i < vals.rest().len() implies plain(#[trigger] vals.rest()[i]) by { assert(vals.rest()[i] == pending[i + chunk@.len()]); }
                             assert((flat(done) + flat(srcs(chunk@))) + flat(vals.rest()) =~= flat(done) + (flat(srcs(chunk@)) + flat(vals.rest())));
                         }
                     }
